@@ -237,6 +237,20 @@ pub fn vp_bool_or(a: bool, b: bool) -> (r: bool)
     a | b
 }
 
+// ---- A-utf8: the `get_*_string` helpers (`String::from_utf8(slice.into())`): neither call panics; no property speaks
+//      about the decoded text, so the results are left unspecified (only lengths are kept for the byte copy) ----------
+#[verifier::external_type_specification]
+#[verifier::external_body]
+pub struct ExFromUtf8Error(std::string::FromUtf8Error);
+
+pub assume_specification[ String::from_utf8 ](v: Vec<u8>) -> (r: Result<String, std::string::FromUtf8Error>)
+;
+
+pub assume_specification<'a, T: Clone>[ <Vec<T> as From<&'a [T]>>::from ](s: &[T]) -> (r: Vec<T>)
+    ensures
+        r@.len() == s@.len(),
+;
+
 // ---- A-box: `Borrow<T> for Box<T>` returns the boxed value (std fact; used by FciBuilderWrapper::{deref, as_ref}) ----
 pub assume_specification<T: ?Sized, A: core::alloc::Allocator>[ <Box<T, A> as std::borrow::Borrow<T>>::borrow ](b: &Box<T, A>) -> (r: &T)
     ensures
